@@ -21,7 +21,7 @@ RULE = ("(encoder level) for every setting of ET, DT and the register-addressed 
 ASSUMPTIONS = ["values whose encoding is the type's 'no value' sentinel (Integer 65535, Voltage/Current 6553.5, Long 2^32-1) are "
                "outside the readable domain: only the write part is asserted for them",
                "ES: only the register-addressed settings (eco-mode groups and switches; 011A/0239 over AA55 for v1, Modbus for v2)"]
-MUST = ["switch_seen_in_its_group", "refused_writes", "refused_rmw_reads", "byte_setting_already_holds_value", "dt_phase_pairs", "encoder_values", "e2e_writes", "e2e_readbacks", "byte_settings_rmw", "negative_values", "multi_register_writes",
+MUST = ["write_after_recovered_fragment_loss", "switch_seen_in_its_group", "refused_writes", "refused_rmw_reads", "byte_setting_already_holds_value", "dt_phase_pairs", "encoder_values", "e2e_writes", "e2e_readbacks", "byte_settings_rmw", "negative_values", "multi_register_writes",
         "aa55_writes", "tcp_writes", "settings_covered"]
 EXHAUSTIVE = {"quick": False, "thorough": False}
 
@@ -231,6 +231,15 @@ def e2e_part(spec, part):
                     cur = sim.regs[sn.offset]
                     sim.regs[sn.offset] = ((v & 0xFF) << 8 | (cur & 0xFF)) if own_hi else ((cur & 0xFF00) | (v & 0xFF))
                     part.count("byte_setting_already_holds_value")
+                if rnd.random() < 0.12 and not (fam == "ES" and sn.offset < 30000):
+                    # just before the write: a read whose answer lost its tail on the way (the retransmission recovers it)
+                    sim.lose_tail = 5 if port != 502 else 9
+                    try:
+                        await inv.read_setting(sn.id_)
+                    except Exception:       # noqa
+                        pass
+                    sim.lose_tail = 0
+                    part.count("write_after_recovered_fragment_loss")
                 prior = sim.get_bytes(sn.offset, nregs)
                 before = sim.snapshot()
                 w0 = len(sim.writes)
